@@ -236,6 +236,15 @@ def run_case(case, tmp):
             rec("file_md5", alg, d, True, True, stream == "legacy", None, exp=conc(whole))
             _meta, hi = hash_file(p, fs, alg)
             rec("hash_file", alg, hi.value, True, True, stream == "legacy", None, exp=conc(whole))
+            # the caller's stat is from when the file was still empty (collected by a walk, the file written since): what is
+            # hashed is what is read
+            if data:
+                pe = p + ".empty"
+                open(pe, "wb").close()
+                stale = {**fs.info(pe), "name": p}
+                os.unlink(pe)
+                _meta, hi = hash_file(p, fs, alg, info=stale)
+                rec("hash_file(stat of the empty file)", alg, hi.value, True, True, stream == "legacy", None, exp=conc(whole))
         os.unlink(p)
     if stream == "plain" and case.get("jitter") and not short:
         rng = random.Random(case["id"])
